@@ -139,7 +139,7 @@ Definition base_of (s : bytes) : bytes :=
   end.
 
 (* strings.HasPrefix(s, p) *)
-Fixpoint has_prefix (s p : bytes) : bool :=
+Fixpoint has_prefix (s p : bytes) {struct p} : bool :=
   match p, s with
   | [], _ => true
   | y :: p', x :: s' => (x =? y) && has_prefix s' p'
@@ -163,3 +163,11 @@ Fixpoint seg_prefix (d p : list seg) : bool :=
   end.
 
 Definition blen (s : bytes) : N := N.of_nat (length s).
+
+(* a segment that can name a directory entry *)
+Definition noslash (s : seg) : Prop := ~ In SL s.
+Definition properb (c : seg) : bool := negb (beq c [] || beq c s_dot || beq c s_dotdot).
+Definition proper (c : seg) : Prop := properb c = true.
+
+(* a directory string that is absolute and its own Clean *)
+Definition clean_abs (d : bytes) : Prop := is_abs d = true /\ clean d = d.
